@@ -768,3 +768,79 @@ def replace_header_replay(inputs, clause):
 
 
 replace_header.replay = replace_header_replay
+
+
+# ------------------------------------------------------------------------------ add_readgroups_to_header: passes failures on
+def addrg_setup(eng):
+    eng.monitor = None
+    eng.ghost = {'replaced_with': None}
+    eng.spec_env['GHOST'] = eng.ghost
+
+    class Header:
+        def vc_getattr(self, eng_, attr, node=None):
+            from pyvc.engine import BoundMethod
+            if attr == 'copy':
+                return BoundMethod('copy', lambda e, a, k: Header())
+            return BoundMethod(attr, lambda e, a, k: {'HD': {'VN': '1.6'}, 'SQ': [{'SN': 'chr1', 'LN': 10}]})
+
+    def opener(e, a, k, n):
+        fault(e, 'open')
+        o = Obj('HeaderSource', {})
+        o.vc_immutable = True
+        return o
+    stubs.STUBS['HeaderSource'] = {'methods': {'__enter__': lambda e, o: o, '__exit__': lambda e, o, *a: None},
+                                   'props': {'header': lambda e, o: Header()}, 'setters': {}}
+    externals.EXTRA['pysam.AlignmentFile'] = opener
+
+    def replace(e, f, a, k, n):
+        fault(e, 'replace_bam_header')
+        e.ghost['replaced_with'] = a[1]
+    eng.loader.call_hooks['singlecellmultiomics.bamProcessing.bamFunctions.replace_bam_header'] = replace
+
+
+RG = {'FC.1.libA_1': {'ID': 'FC.1.libA_1', 'LB': 'libA', 'PL': 'ILLUMINA', 'SM': 'libA_1', 'PU': 'FC.1.libA_1'},
+      'FC.1.libA_2': {'ID': 'FC.1.libA_2', 'LB': 'libA', 'PL': 'ILLUMINA', 'SM': 'libA_2', 'PU': 'FC.1.libA_2'}}
+add_rg = Contract(
+    PROP, FB + '::add_readgroups_to_header', name='add_readgroups_to_header[two read groups, every step may fail]',
+    params={'origin_bam_path': ('const', 'out.bam.unsorted.bam'), 'readgroups_in': ('const', RG), 'target_bam_path': 'none',
+            'header_write_mode': ('const', 'auto')},
+    setup=addrg_setup,
+    ensures={
+        'returns_only_after_the_header_was_replaced': 'GHOST["replaced_with"] is not None and not GHOST.get("content_faults")',
+        'the_new_header_lists_every_read_group': 'sorted([g["ID"] for g in GHOST["replaced_with"]["RG"]]) == ["FC.1.libA_1", "FC.1.libA_2"]',
+        'and_keeps_the_rest_of_the_header': 'GHOST["replaced_with"]["SQ"] == [{"SN": "chr1", "LN": 10}]',
+    },
+    raises={'Exception': 'True', 'KeyboardInterrupt': 'True'},
+    bounded='a dictionary of two read groups',
+    assumptions=['replace_bam_header through its own contract above (may fail); pysam header copy/to_dict as a dictionary (A4)'],
+)
+UNITS.append(add_rg)
+
+
+# ------------------------------------------------------------------------------ write_status: what the marker file holds
+def ws_setup(eng):
+    eng.monitor = None
+    eng.ghost = {'files': {}}
+    eng.spec_env['GHOST'] = eng.ghost
+
+    def opener(e, a, k, n):
+        path, mode = a[0], (a[1] if len(a) > 1 else 'r')
+        o = Obj('StatusFile', {'path': path, 'mode': mode})
+        if 'w' in mode:
+            e.ghost['files'][path] = []
+        return o
+    stubs.STUBS['StatusFile'] = {'methods': {'__enter__': lambda e, o: o, '__exit__': lambda e, o, *a: None,
+                                             'write': lambda e, o, text: e.ghost['files'][o.attrs['path']].append(text)},
+                                 'props': {}, 'setters': {}}
+    eng.spec_env['open'] = Builtin('open', opener)
+
+
+write_status_unit = Contract(
+    PROP, FT + '::write_status', name='write_status[the marker next to the output holds exactly the message]',
+    params={'output_path': ('const', 'results/out.bam'), 'message': 'str'},
+    setup=ws_setup,
+    ensures={'marker_replaced_by_the_message': 'len(GHOST["files"]) == 1 and "".join(GHOST["files"]["results/out.status.txt"]) == message + "\\n"'},
+    raises={},
+    assumptions=['open(path, "w") truncates; text file write appends to the handle (A4)'],
+)
+UNITS.append(write_status_unit)
